@@ -10,7 +10,7 @@ Open Scope Q_scope.
 Inductive obs :=
 | ObsModel (frame up sec : list srow) (objv : option Q)
 | ObsMet (m : Z) (frame : list srow) (pr cn : list prow)
-| ObsRxn (r : Z) (flux : Q) (range : option (Q * Q)).
+| ObsRxn (r : Z) (flux : Q) (range : option (option (Q * Q))).   (* Some None = NaN, NaN *)
 
 Record case := mkCase {
   c_tol : Q;                       (* model.tolerance *)
@@ -147,22 +147,17 @@ Definition fva_ok (tol eps : Q) (s : solution) (fva : option fva_frame) (rows : 
 
 Definition has_key {A} (k : Z) (l : list (Z * A)) : bool := match lookup k l with Some _ => true | None => false end.
 
-(* every reaction has a flux in the solution; every reaction the summary lists has a row in the fva frame *)
-Definition covered (rs : list rxn) (s : solution) (fva : option fva_frame) (listed : list Z) : bool :=
-  forallb (fun r => has_key (x_id r) s) rs &&
-  match fva with None => true | Some f => forallb (fun k => has_key k f) listed end.
+(* every reaction has a flux in the solution.  The fva frame may lack rows (a frame computed for a
+   reaction_list): the model then behaves as the code does (range (0,0), or NaN for a reaction summary) *)
+Definition covered (rs : list rxn) (s : solution) : bool :=
+  forallb (fun r => has_key (x_id r) s) rs.
 
 Definition flag (b : bool) (code : nat) : list (nat * nat) := if b then [] else [(0%nat, code)].
 
 Definition check_case (c : case) : list (nat * nat) :=
   let tol := c_tol c in let eps := c_eps c in let rs := c_rxns c in let s := c_sol c in let fva := c_fva c in
   flag (c_render c) 7 ++
-  flag (covered rs s fva
-          match c_obs c with
-          | ObsModel _ _ _ _ => map x_id (filter is_boundary rs)
-          | ObsMet m _ _ _ => map x_id (filter (has_met m) rs)
-          | ObsRxn r _ _ => [r]
-          end) 1 ++
+  flag (covered rs s) 1 ++
   match c_obs c with
   | ObsModel frame up sec objv =>
       let xs := model_xrows tol rs s fva in
@@ -193,7 +188,8 @@ Definition check_case (c : case) : list (nat * nat) :=
       flag (fva_ok tol eps s fva frame) 6
   | ObsRxn r flux range =>
       flag (approx eps flux (getq r s) &&
-            opt_eqb (fun a b => approx eps (fst b) (fst a) && approx eps (snd b) (snd a)) (row_range fva r) range) 1
+            opt_eqb (opt_eqb (fun a b => approx eps (fst b) (fst a) && approx eps (snd b) (snd a)))
+                    (snd (reaction_row s fva r)) range) 1
   end.
 
 Definition failing (cases : list (Z * case)) : list (Z * list (nat * nat)) :=
